@@ -24,6 +24,8 @@ func init() {
 			{Name: "stat-skips-resolution", File: "artifact/image/layerscanning/image/layer.go", Old: "	resolvedNode, err := chainfs.resolveSymlink(node, chainfs.maxSymlinkDepth)\n	if err != nil {\n		return nil, fmt.Errorf(\"failed to resolve symlink for file node %s: %w\", node.virtualPath, err)\n	}\n	return resolvedNode.Stat()", New: "	return node.Stat()", Rule: "D2-resolve", Site: "Stat"},
 			{Name: "check-after-normalisation", File: "artifact/image/layerscanning/image/image.go", Old: "	if symlink.TargetOutsideRoot(virtualPath, targetPath) {\n		log.Warnf(\"Found symlink that points outside the root, skipping: %q -> %q\", virtualPath, targetPath)\n		return nil, fmt.Errorf(\"%w: %q -> %q\", ErrSymlinkPointsOutsideRoot, virtualPath, targetPath)\n	}\n\n	// Resolve the relative symlink path to an absolute path.\n	if !path.IsAbs(targetPath) {\n		targetPath = path.Clean(path.Join(path.Dir(virtualPath), targetPath))\n	}\n", New: "	// Resolve the relative symlink path to an absolute path.\n	if !path.IsAbs(targetPath) {\n		targetPath = path.Clean(path.Join(path.Dir(virtualPath), targetPath))\n	}\n	if symlink.TargetOutsideRoot(virtualPath, targetPath) {\n		log.Warnf(\"Found symlink that points outside the root, skipping: %q -> %q\", virtualPath, targetPath)\n		return nil, fmt.Errorf(\"%w: %q -> %q\", ErrSymlinkPointsOutsideRoot, virtualPath, targetPath)\n	}\n", Rule: "D3-outside-root", Site: "handleSymlink"},
 			{Name: "resolution-cached-on-node", File: "artifact/image/layerscanning/image/layer.go", Old: "		if !isSymlink {\n			return node, nil\n		}\n", New: "		if !isSymlink {\n			slowNode.targetPath = node.virtualPath\n			return node, nil\n		}\n", Rule: "D4-nodes-immutable", Site: "resolveSymlink"},
+			{Name: "link-target-fast-path", File: "artifact/image/symlink/symlink.go", Old: "	markerDir := uuid.New().String()\n", New: "	if !strings.HasPrefix(filepath.ToSlash(target), \"../\") && !strings.HasPrefix(filepath.ToSlash(target), \"/../\") {\n		return false\n	}\n	markerDir := uuid.New().String()\n", Rule: "D3-outside-root", Site: "TargetOutsideRoot"},
+			{Name: "stat-returns-the-node", File: "artifact/image/layerscanning/image/layer.go", Old: "	return resolvedNode.Stat()\n", New: "	return resolvedNode, nil\n", Rule: "D2-resolve", Site: "FS.Stat"},
 		},
 	})
 }
@@ -41,6 +43,8 @@ func runC17(p *Prog, r *Report) {
 	c17Variant(p, r, rs)
 	c17Resolve(p, r, rs)
 	c17Outside(p, r)
+	targetOutsideRootBody(p, r, "D3-outside-root")
+	c17StatAnswers(p, r)
 	c17Immutable(p, r, "D4-nodes-immutable")
 }
 
@@ -408,4 +412,45 @@ func c17Immutable(p *Prog, r *Report, rule string) {
 func isAllocValue(v ssa.Value) bool {
 	_, ok := v.(*ssa.Alloc)
 	return ok
+}
+
+
+// c17StatAnswers: FS.Stat answers, on success, with what fileNode.Stat() says about the node the
+// resolver returned — the method that turns a deleted (whiteout) chain end into fs.ErrNotExist. A
+// whiteout test made on the node found by name, or returning the resolved node itself as FileInfo,
+// lets a chain that ends at a deleted entry succeed.
+func c17StatAnswers(p *Prog, r *Report) {
+	fn := p.Func(imgPkg, "FS.Stat")
+	if fn == nil {
+		r.Undecided("D2-resolve", "anchor:FS.Stat", "-", "not found")
+		return
+	}
+	var rc *ssa.Call
+	forEachInstr(fn, func(_ *ssa.BasicBlock, _ int, in ssa.Instruction) {
+		if c, ok := in.(*ssa.Call); ok && c.Call.StaticCallee() != nil && c.Call.StaticCallee().Name() == "resolveSymlink" {
+			rc = c
+		}
+	})
+	if rc == nil {
+		r.Fail("D2-resolve", "FS.Stat:resolves", p.Pos(fn.Pos()), "FS.Stat does not resolve the node through resolveSymlink")
+		return
+	}
+	n := 0
+	for i, ret := range returnsOf(fn) {
+		if isNilConst(retVal(ret, 0)) {
+			continue // failure return
+		}
+		n++
+		ok := false
+		v := retVal(ret, 0)
+		if ex, isE := v.(*ssa.Extract); isE {
+			if sc, isC := ex.Tuple.(*ssa.Call); isC && sc.Call.StaticCallee() != nil && sc.Call.StaticCallee().Name() == "Stat" && len(sc.Call.Args) == 1 {
+				if rex, isR := sc.Call.Args[0].(*ssa.Extract); isR && rex.Tuple == ssa.Value(rc) && rex.Index == 0 {
+					ok = true
+				}
+			}
+		}
+		r.Check(ok, "D2-resolve", fmt.Sprintf("FS.Stat:answer#%d", i), p.Pos(ret.Pos()), "returns resolvedNode.Stat()", "FS.Stat does not answer with fileNode.Stat() of the resolved node: a symlink chain that ends at an entry deleted by a later layer is reported as existing")
+	}
+	r.Check(n > 0, "D2-resolve", "FS.Stat:has-success-return", p.Pos(fn.Pos()), "has a success return", "FS.Stat never returns file information")
 }
